@@ -12,6 +12,8 @@ pub type Tid = u8;
 pub type Lid = u32;
 /// first phantom ("some other thread") holder id; PHANTOM+k are distinct phantoms
 pub const PHANTOM: Tid = 200;
+/// transient phantoms (release when blocked upon) use ids PHANTOM_T..PHANTOM
+pub const PHANTOM_T: Tid = 150;
 
 #[derive(Clone, Copy, PartialEq, Eq, Debug, Hash, Serialize, Deserialize)]
 pub enum Op {
@@ -244,6 +246,8 @@ pub struct Inner {
 	pub group_of: Vec<u32>,
 	pub trace_cap: usize,
 	pub ops_after_abort: u32,
+	/// transient phantom holds that were released because a thread blocked on them
+	pub released_transients: Vec<(Lid, Tid)>,
 }
 
 pub struct Exec {
@@ -329,6 +333,7 @@ impl Exec {
 				group_of: vec![u32::MAX; nlocks],
 				trace_cap: 6_000,
 				ops_after_abort: 0,
+				released_transients: Vec::new(),
 			}),
 			cv: Condvar::new(),
 		})
@@ -663,6 +668,58 @@ impl Exec {
 		match op {
 			Op::Lock | Op::LockSh => {
 				let shared = op.is_shared();
+				// sequential mode: holders that are transient phantoms finish
+				// (release) as soon as somebody blocks on the lock
+				if g.sched.is_none() && !g.grantable(tid, lid, shared) {
+					let is_t = |t: Tid| (PHANTOM_T..PHANTOM).contains(&t);
+					let l = &g.locks[lid as usize];
+					let conflicting: Vec<Tid> = if shared { l.excl.into_iter().collect() } else { l.holders() };
+					if !conflicting.is_empty() && conflicting.iter().all(|t| is_t(*t)) {
+						let l = &mut g.locks[lid as usize];
+						let mut rel = Vec::new();
+						if let Some(x) = l.excl {
+							if is_t(x) {
+								l.excl = None;
+								rel.push(x);
+							}
+						}
+						if !shared {
+							l.shared.retain(|t| {
+								if is_t(*t) {
+									rel.push(*t);
+									false
+								} else {
+									true
+								}
+							});
+						}
+						for t in rel {
+							g.released_transients.push((lid, t));
+						}
+						g.table_version += 1;
+						waited = true;
+						// the call did wait: the same notices as for a real wait
+						match fkind {
+							Some(CallKind::AcquireTry) => g.notices.push(Notice::BlockingInTry { tid, lid, frame }),
+							Some(CallKind::NonAcquiring) | Some(CallKind::Release) => {
+								g.notices.push(Notice::WaitInNonAcquiring { tid, lid, frame })
+							}
+							_ => {}
+						}
+						if frame != 0 && g.retry_frames.contains(&frame) {
+							let grp = g.group_of[lid as usize];
+							let held: Vec<Lid> = g
+								.held_by(tid)
+								.into_iter()
+								.map(|(l, _)| l)
+								.filter(|l| grp == u32::MAX || g.group_of[*l as usize] != grp)
+								.collect();
+							if !held.is_empty() {
+								g.notices.push(Notice::HoldAndWait { tid, lid, frame, held });
+							}
+						}
+					}
+				}
 				let l = &g.locks[lid as usize];
 				let self_held = l.excl == Some(tid) || (!shared && l.shared.contains(&tid));
 				if g.grantable(tid, lid, shared) {
